@@ -11,6 +11,7 @@ import (
 	"github.com/shutter-network/rolling-shutter/rolling-shutter/shdb"
 	"sort"
 	"verifharness/gossipnet"
+	"verifharness/pgmem"
 
 	pubsub "github.com/libp2p/go-libp2p-pubsub"
 
@@ -625,6 +626,42 @@ func historyCase(env *vlib.Env, idx int, rep *vlib.Reporter) {
 			return
 		}
 		rep.Obs("history_valid_accepted", 1)
+	}
+	// database faults: whichever statement of the validator fails, a message that must be refused is
+	// not accepted (a valid one may be refused: the sender's peers will offer it again)
+	if node.DBNode != nil {
+		inc := fmt.Sprintf("%s-%d", fl, index)
+		db := node.DBNode.DB
+		for _, vi := range r.Perm(len(variants)) {
+			m := variants[vi].mk()
+			if m == nil {
+				continue
+			}
+			si, sg := lists(m)
+			if fl == gossipnet.Service && len(si) == 0 && len(sg) == 0 {
+				continue
+			}
+			data := gossipnet.MustMarshal(m)
+			rt0, _ := db.RoundTrips(inc)
+			node.Validate(ctx, topic, data)
+			rt1, _ := db.RoundTrips(inc)
+			for j := 0; j < rt1-rt0; j++ {
+				cur, _ := db.RoundTrips(inc)
+				db.SetFaultPlan(inc, &pgmem.FaultPlan{Faults: []pgmem.Fault{{At: cur + j, Kind: pgmem.FailStatement}}})
+				var res pubsub.ValidationResult
+				label := fmt.Sprintf("%s with statement %d of the validator failing", variants[vi].name, j)
+				if rep.Guard("panic:history:"+string(fl), desc+" "+label, func() { res = node.Validate(ctx, topic, data) }) {
+					return
+				}
+				db.SetFaultPlan(inc, nil)
+				rep.Obs("validator_calls_with_a_failing_statement", 1)
+				if res == pubsub.ValidationAccept {
+					rep.Violationf("accepts-invalid:"+string(fl)+":db-fault:"+variants[vi].name, map[string]any{"case": desc, "failing_statement": j},
+						"a keys message with %s was accepted when statement %d of the validator failed", variants[vi].name, j)
+					return
+				}
+			}
+		}
 	}
 	rep.Eval(desc, true)
 	if node.DBNode != nil {
